@@ -204,6 +204,9 @@ func (r *FileRestorer) updateImports() error {
 	// a list of all the imports that will be in the imports block after the update
 	importsRequired := map[string]bool{}
 
+	// a tree decorated from a source with syntax errors can have an import spec without a valid path
+	var invalid error
+
 	dst.Inspect(r.file, func(n dst.Node) bool {
 		switch n := n.(type) {
 		case *dst.Ident:
@@ -221,14 +224,22 @@ func (r *FileRestorer) updateImports() error {
 				return true
 			}
 			// if this block has 1 spec and it's the "C" import, ignore it.
-			if len(n.Specs) == 1 && mustUnquote(n.Specs[0].(*dst.ImportSpec).Path.Value) == "C" {
-				hasCgoBlock = true
-				return true
+			if len(n.Specs) == 1 {
+				if path, err := strconv.Unquote(n.Specs[0].(*dst.ImportSpec).Path.Value); err == nil && path == "C" {
+					hasCgoBlock = true
+					return true
+				}
 			}
 			blocks = append(blocks, n)
 
 		case *dst.ImportSpec:
-			path := mustUnquote(n.Path.Value)
+			path, err := strconv.Unquote(n.Path.Value)
+			if err != nil {
+				if invalid == nil {
+					invalid = fmt.Errorf("invalid import path %s: %w", n.Path.Value, err)
+				}
+				return true
+			}
 			if n.Name == nil {
 				importsFound[path] = ""
 			} else {
@@ -241,6 +252,10 @@ func (r *FileRestorer) updateImports() error {
 		}
 		return true
 	})
+
+	if invalid != nil {
+		return invalid
+	}
 
 	// resolved names of all packages in use
 	resolved := map[string]string{}
